@@ -23,6 +23,7 @@ type RunOpts struct {
 	KeepSMT  string
 	Verbose  bool
 	Overlay  map[string][]byte
+	Expected map[string]string // obligation -> ledger status (scheduling hints only)
 }
 
 func envOr(k, d string) string {
@@ -267,24 +268,79 @@ func (r *Run) solve() error {
 					o.Status, o.Solver = "proved", "trivial"
 					return
 				}
-				sr := solveRace(fn, r.Opts.TimeoutS, sem)
-				o.Solver, o.Seconds, o.Output = sr.Solver, sr.Seconds, sr.Output
-				switch sr.Status {
-				case "unsat":
-					o.Status = "proved"
-					o.Output = ""
-				case "sat":
-					o.Status = "refuted"
-				case "error":
-					o.Status = "error"
-				default:
-					o.Status = "unknown"
+				if r.Opts.Expected != nil && r.Opts.Expected[o.Name] == "known-finding" && r.Opts.Tier != "thorough" {
+					// expected to fail: one short attempt only (keeps the cores free)
+					sem <- struct{}{}
+					sr := runSolver(nil2ctx(), solvers[0], fn, 3)
+					<-sem
+					applyResult(o, sr)
+					return
 				}
+				sr := solveRace(fn, r.Opts.TimeoutS, sem)
+				applyResult(o, sr)
 			}()
 		}
 	}
 	wg.Wait()
 	return nil
+}
+
+func applyResult(o *Obl, sr SolverResult) {
+	o.Solver, o.Seconds, o.Output = sr.Solver, sr.Seconds, sr.Output
+	switch sr.Status {
+	case "unsat":
+		o.Status = "proved"
+		o.Output = ""
+	case "sat":
+		o.Status = "refuted"
+	case "error":
+		o.Status = "error"
+	default:
+		o.Status = "unknown"
+	}
+}
+
+// retry re-runs the solvers on obligations that the ledger records as proved
+// but that did not discharge in the first pass, with a longer timeout and
+// little contention, before anything is reported.
+func (r *Run) retry(names map[string]bool, timeoutS int) {
+	sem := make(chan struct{}, 6)
+	var wg sync.WaitGroup
+	for _, res := range r.Results {
+		for _, o := range res.Obls {
+			if !names[o.Name] || o.File == "" {
+				continue
+			}
+			o := o
+			wg.Add(1)
+			go func() {
+				defer wg.Done()
+				ch := make(chan SolverResult, len(solvers))
+				for _, sp := range solvers {
+					go func(sp solverSpec) {
+						sem <- struct{}{}
+						defer func() { <-sem }()
+						ch <- runSolver(nil2ctx(), sp, o.File, timeoutS)
+					}(sp)
+				}
+				var best *SolverResult
+				for range solvers {
+					sr := <-ch
+					if sr.Status == "unsat" || (sr.Status == "sat" && best == nil) {
+						s2 := sr
+						best = &s2
+						if sr.Status == "unsat" {
+							break
+						}
+					}
+				}
+				if best != nil {
+					applyResult(o, *best)
+				}
+			}()
+		}
+	}
+	wg.Wait()
 }
 
 func (r *Run) cleanup() {
